@@ -1,6 +1,6 @@
 use crate::diagnostic_emitter::MosResult;
 use crate::impl_notification_handler;
-use crate::lsp::{LspContext, NotificationHandler};
+use crate::lsp::{to_path, LspContext, NotificationHandler};
 use itertools::Itertools;
 use lsp_types::notification::{
     DidChangeTextDocument, DidCloseTextDocument, DidOpenTextDocument, PublishDiagnostics,
@@ -42,7 +42,7 @@ impl NotificationHandler<DidCloseTextDocument> for DidCloseTextDocumentHandler {
         ctx.parsing_source()
             .lock()
             .unwrap()
-            .remove(&params.text_document.uri.to_file_path().unwrap());
+            .remove(&to_path(&params.text_document.uri));
         // From now on the file is read from disk again
         ctx.perform_codegen();
         publish_diagnostics(ctx)?;
@@ -51,7 +51,7 @@ impl NotificationHandler<DidCloseTextDocument> for DidCloseTextDocumentHandler {
 }
 
 fn register_document(ctx: &mut LspContext, uri: &Url, source: &str) {
-    let path = uri.to_file_path().unwrap();
+    let path = to_path(uri);
     ctx.parsing_source().lock().unwrap().insert(&path, source);
     ctx.perform_codegen();
 }
